@@ -365,7 +365,15 @@ func genOnce(r *Rand, pkg string, prof Profile) *Spec {
 				p.Out = append(p.Out, g.newType(g.freshValueKind()))
 			}
 		}
+		// the provider returns an interface AND a type implementing it; Bind on top must not displace the direct result
+		if k0 := g.sp.Types[p.Out[0]].Kind; len(p.Out) >= 2 && g.sp.Types[p.Out[1]].Kind == KPtr && (k0 == KPtr || k0 == KVal || k0 == KStr || k0 == KInt) && len(g.sp.Types[p.Out[0]].Impl) == 0 && r.Chance(1, 10) {
+			it := g.newType(KIface)
+			g.sp.Types[it].ImplBy = p.Out[1]
+			g.sp.Types[p.Out[1]].Impl = append(g.sp.Types[p.Out[1]].Impl, it)
+			p.Out[0] = it // the type drawn first stays declared and unused
+		}
 		p.Fallible = r.Intn(6) < fallP
+		p.ErrAlias = p.Fallible && r.Chance(1, 7)
 		if r.Chance(1, 8) {
 			p.Form = "lit"
 		}
@@ -373,12 +381,18 @@ func genOnce(r *Rand, pkg string, prof Profile) *Spec {
 		pi := len(g.sp.Providers) - 1
 		g.avail = append(g.avail, p.Out...)
 		// interfaces bound to pointer results
-		for _, o := range p.Out {
+		for oi, o := range p.Out {
 			if g.sp.Types[o].Kind == KPtr && r.Chance(1, 5) {
 				it := g.newType(KIface)
 				g.sp.Types[it].ImplBy = o
 				g.sp.Types[o].Impl = append(g.sp.Types[o].Impl, it)
 				g.avail = append(g.avail, it)
+				// a later result of the same provider implements the interface too: the first one supplies it
+				for _, o2 := range p.Out[oi+1:] {
+					if g.sp.Types[o2].Kind == KPtr && r.Chance(1, 2) {
+						g.sp.Types[o2].Impl = append(g.sp.Types[o2].Impl, it)
+					}
+				}
 				if r.Chance(1, 2) {
 					// consumers see only the interface
 					g.dropAvail(o)
